@@ -65,8 +65,10 @@ Section Conds.
   (** state *)
   Lemma state_alone cmd st e : st <> [] -> mim cmd (only_state st) e = doc_state st (me_state e).
   Proof.
-    intro Hs. unfold match_is_match, only_state; cbn. rewrite state_matches_doc.
-    destruct st as [|s r]; [contradiction|]. destruct (doc_state (s :: r) (me_state e)); reflexivity.
+    intro Hs. destruct st as [|s r]; [contradiction|].
+    unfold match_is_match, only_state; cbn [m_command m_state m_kind m_path m_name m_label m_annotation m_for m_keep].
+    rewrite state_matches_doc. cbn [String.eqb negb andb].
+    destruct (doc_state (s :: r) (me_state e)); reflexivity.
   Qed.
 
   (** annotation: only alerting rules that HAVE annotations, some annotation's key and value both match *)
